@@ -127,7 +127,7 @@ def hist_addressing(rng):
               'vals m']
     if c.kind == 'rec':
         n2r = hpg.nest_to_ring(nside, np.arange(c.npix))
-        h.append('genhp m nest=0 key=%d n2r=%s' % (rng.randrange(len(c.fields)), ','.join(map(str, n2r))))
+        h.append('genhp m nest=0 key=%d n2r=%s' % (c.single_field(rng), ','.join(map(str, n2r))))
     return h
 
 
